@@ -1057,6 +1057,200 @@ def check_c20(tier, seed, res):
                 "every step the result is compared with a reference store computed from the case text (check.py) and with the model")
 
 
+# --------------------------------------------------------------------------
+# lifecycle properties: scenarios predicted by the LTS, forced on a worker
+
+def parse_snapshot(s):
+    d = dict(conns=[])
+    for tok in s.split(" "):
+        if not tok:
+            continue
+        if tok[0] == "c" and ":id=" in tok:
+            head, rest = tok.split(":", 1)
+            c = {}
+            for kv in re.findall(r"(\w+)=(\[[^\]]*\]|[^,]*)", rest):
+                c[kv[0]] = kv[1]
+            c["started"] = [x for x in c.get("started", "[]").strip("[]").split(";") if x]
+            c["ended"] = [x for x in c.get("ended", "[]").strip("[]").split(";") if x]
+            d["conns"].append(c)
+        elif "=" in tok:
+            k, v = tok.split("=", 1)
+            d[k] = v
+    return d
+
+
+def life_ops(line):
+    """split the operations of a life case (for reporting)"""
+    return line.split(" ", 4)[4] if len(line.split(" ", 4)) > 4 else ""
+
+
+def life_spec(pid, line, snaps):
+    """Property-specific predicate on the snapshots observed on the real server.
+    Returns (key, why) or None."""
+    P = [parse_snapshot(x) for x in snaps if not x.startswith(("OPFAILED", "DISABLED", "ENABLED"))]
+    ops_text = life_ops(line)
+    for k, p in enumerate(P):
+        if pid == "C07" and p.get("alive") == "0":
+            return ("process-died", "the server process died at operation %d" % k)
+        if pid == "C17":
+            if p.get("ready") == "1" and p.get("run") in ("err", "none"):
+                return ("ready-without-listener", "Ready() is true although Run %s" % ("returned an error" if p.get("run") == "err" else "was not called"))
+        if pid in ("C08", "C12", "C09", "C10", "C06", "C13"):
+            for ci, c in enumerate(p["conns"]):
+                if int(c.get("onclose", "0")) > 1:
+                    return ("onclose-twice", "OnClose called %s times for connection %d" % (c["onclose"], ci))
+        if pid == "C08":
+            for ci, c in enumerate(p["conns"]):
+                running = [x for x in c["started"] if x.rstrip("ntu") not in c["ended"]]
+                if c.get("onclose") == "1" and running and not panics_in(ops_text):
+                    return ("onclose-before-handlers", "OnClose for connection %d while handlers %s have not returned" % (ci, running))
+                if c.get("closed") == "1" and running and not panics_in(ops_text):
+                    return ("closed-before-handlers", "connection %d closed while handlers %s have not returned" % (ci, running))
+        if pid == "C09":
+            ids = [c.get("id") for c in p["conns"]]
+            if len(set(ids)) != len(ids) or any(int(i) <= 0 for i in ids):
+                return ("connection-ids", "connection ids not unique/positive: %r" % (ids,))
+        if pid == "C12":
+            st = p.get("stops", "0/0").split("/")
+            if st[1] != "0" and st[0] == st[1] and p.get("run") in ("ok", "err"):
+                if p.get("port") == "1":
+                    return ("port-still-bound", "Stop and Run have returned and the port is still bound")
+                for ci, c in enumerate(p["conns"]):
+                    if c.get("closed") == "0":
+                        return ("conn-open-after-stop", "Stop and Run have returned and connection %d is still open" % ci)
+                    if c.get("onclose") == "0" and "onclose=0" not in line.split(" ")[2]:
+                        return ("onclose-pending-after-stop", "Stop and Run have returned and OnClose has not completed for connection %d" % ci)
+    if pid == "C11" and P:
+        last = P[-1]
+        st = last.get("stops", "0/0").split("/")
+        if st[1] != "0" and (st[0] != st[1] or last.get("run") not in ("ok", "err")) and "b " not in ops_text:
+            return ("stop-hangs", "Stop (or Run) did not return within the limit: stops=%s run=%s" % (last.get("stops"), last.get("run")))
+    if pid == "C06" and P:
+        # after the pipeline was sent every request must have a started handler numbered 1..N
+        for p in P:
+            for ci, c in enumerate(p["conns"]):
+                rids = [int(x.rstrip("ntu")) for x in c["started"]]
+                if rids != list(range(1, len(rids) + 1)) and sorted(rids) != rids:
+                    return ("numbering", "request ids on connection %d are not 1,2,3,...: %r" % (ci, rids))
+    if pid == "C10":
+        for p in P:
+            for ci, c in enumerate(p["conns"]):
+                us = [x for x in c["started"] if x.endswith("u")]
+                if len(us) > 1:
+                    return ("unbind-handler-twice", "unbind handler ran %d times" % len(us))
+    return None
+
+
+def panics_in(ops_text):
+    return " p" in ops_text
+
+
+def life_check(pid, gens, n, tier, seed, res):
+    cases = ""
+    for gname in gens:
+        cases += gen_cases(gname, seed, n, tier)
+    cases = renumber(cases)
+    os.makedirs(wd(pid), exist_ok=True)
+    open(os.path.join(wd(pid), "life.cases"), "w").write(cases)
+    mout = run_driver(cases)
+    open(os.path.join(wd(pid), "life.model"), "w").write(mout)
+    pred = parse_results(mout)
+    cm = case_map(cases)
+    runlines = []
+    for k, line in cm.items():
+        p = pred.get(k)
+        if p is None or p.startswith("DRIVER-ERROR"):
+            res.mismatch(line, "-", str(p))
+            continue
+        body = line.split(" ", 2)[2]
+        runlines.append("liferun %s %s @@ %s" % (k[1], body, p))
+    env = dict(GOENV, VERIF_CERTDIR=os.path.join(WORK, "certs"))
+    os.makedirs(env["VERIF_CERTDIR"], exist_ok=True)
+    subprocess.run([VH, "gencerts"], env=env, timeout=60)
+    text = "\n".join(runlines) + "\n"
+    # scenarios are independent: run them on parallel harness processes
+    k = min(12, max(1, len(runlines)))
+    procs = []
+    for j in range(k):
+        chunk = runlines[j::k]
+        if not chunk:
+            continue
+        procs.append(subprocess.Popen([VH, "run"], stdin=subprocess.PIPE, stdout=subprocess.PIPE, stderr=subprocess.PIPE, text=True, env=env))
+        procs[-1]._chunk = "\n".join(chunk) + "\n"
+    outs = []
+    import threading
+    def feed(p):
+        o, e = p.communicate(p._chunk, timeout=3000)
+        outs.append(o)
+    ths = [threading.Thread(target=feed, args=(p,)) for p in procs]
+    [t.start() for t in ths]
+    [t.join() for t in ths]
+    iout = "".join(outs)
+    open(os.path.join(wd(pid), "life.impl"), "w").write(iout)
+    impl = {}
+    for l in iout.splitlines():
+        parts = l.split(" ", 2)
+        if len(parts) >= 3:
+            impl[parts[1]] = parts[2]
+    opkinds = {}
+    for k, line in cm.items():
+        res.evaluations += 1
+        i = impl.get(k[1])
+        if i is None or i.startswith("HARNESS"):
+            res.mismatch(line, str(i), pred.get(k, ""))
+            continue
+        res.nontrivial.add(line.split(" ", 2)[2])
+        res.traces += 1
+        for o in re.findall(r"\b(run|stop|connect|send|close|stall|release|holdonclose)\b", line):
+            opkinds[o] = opkinds.get(o, 0) + 1
+        head, _, rest = i.partition(" ")
+        if head == "OK":
+            snaps = rest.split(" # ")
+        else:
+            _, _, rest2 = rest.partition(" ")
+            snaps = rest2.split(" # ")
+        v = life_spec(pid, line, snaps)
+        if v is not None:
+            res.violation(v[0], line, i[:1500], pred.get(k, "")[:1500], v[1])
+        elif head != "OK":
+            res.mismatch(line, i[:1500], pred.get(k, "")[:1500])
+        elif res.evaluations % 7 == 1:
+            res.sample(line[:300] + "  =>  " + snaps[-1][:300])
+    res.extra["operations"] = opkinds
+    res.assumptions.append("scheduler fairness and kernel timing: a predicted snapshot must be reached within 5 s and stay for 120 ms")
+
+
+@check("C17")
+def check_c17(tier, seed, res):
+    life_check("C17", ["c17"], 0, tier, seed, res)
+    res.rule = ("scenarios: Run on a free port then connect/serve/Stop; Run on a port that is already bound; Run on a malformed address; each alone and "
+                "followed by Stop; after every operation the worker's Ready(), Run's return and the port are sampled and compared with the LTS prediction; "
+                "one evaluation = one scenario")
+
+
+LIFE_RULES = {
+    "C06": "pipelines of N = 1,2,3,8,32 (thorough +100,256) requests whose handlers all block on one barrier (every handler must have started, none ended, before the release) and random mixes on 1..3 connections with blocking / writing handlers; Request.ID per connection must be 1,2,3,... ",
+    "C07": "7 fault kinds (panic in a concurrently dispatched handler - plain, after writing, with others in flight -, in the inline StartTLS handler, in the unbind handler, malformed frame, abrupt disconnect with a handler in flight) x bystander idle/busy; the bystander and a connection opened after the fault must still be served and the worker process must stay alive",
+    "C08": "5 endings (client close, Unbind, malformed frame, recovered panic on the connection goroutine, server Stop) x 3 in-flight states (none, handlers blocked, handler between two writes) x {1,3} connections; OnClose at most once, only after handlers returned and the socket was closed, exactly once at the end",
+    "C09": "random connect / request / close / reconnect histories; ConnectionID seen by handlers (matched to the client through message ids) and by OnClose must be the accept order 1,2,3,...",
+    "C10": "k requests, Unbind, m requests (k,m in 0..3) written in ONE TCP segment, with and without an unbind route, earlier handlers held or not: nothing after the Unbind is dispatched, the unbind handler runs once, the socket closes after the held handlers are released",
+    "C11": "Stop (single and concurrent double) with {no, idle, pipelining, handler blocked writing 16 MiB to a client that does not read, StartTLS handshake pending} x {1,4} connections: Stop and Run must return within the limit without any client action",
+    "C12": "Stop before Run (then Run must return with the port free), repeated Stop, OnClose held / handlers held / teardown in progress when Stop arrives x {1,3} connections: Stop must not return before OnClose completed and handlers ended; afterwards the port is free and every socket closed",
+    "C13": "StartTLS sessions {1,3} in parallel, handler replies then handshakes, client handshakes only after the reply, then requests (blocking and plain) inside the tunnel, Unbind; plus a request pipelined right behind StartTLS while its handler is held",
+}
+
+
+def make_life_check(pid, gens):
+    def fn(tier, seed, res):
+        n = 6 if tier == "quick" else 60
+        life_check(pid, gens, n, tier, seed, res)
+        res.rule = LIFE_RULES[pid] + "; every scenario is predicted by the LTS (Sys.v, canonical scheduler to quiescence) and forced on a real server in a worker process; after each operation the observed snapshot (ready, Run/Stop returns, port, per connection: id, handlers started/ended, closed, OnClose count) must become and stay the predicted one; one evaluation = one scenario"
+    CHECKS[pid] = fn
+
+for _pid, _g in [("C06", ["c06"]), ("C07", ["c07"]), ("C08", ["c08"]), ("C09", ["c09"]), ("C10", ["c10"]), ("C11", ["c11"]), ("C12", ["c12"]), ("C13", ["c13"])]:
+    make_life_check(_pid, _g)
+
+
 def renumber(text):
     out = []
     for j, l in enumerate(text.splitlines()):
